@@ -128,6 +128,10 @@ func Harness_C07_SwapWindow() {
 	k := verif.Param("K", 3)
 	for step := 0; step < k; step++ {
 		verifSwapStep(db, m)
+		if verif.Choose("background-runs", 2) == 1 {
+			// the background tasks run until each is done or waits at a swap window
+			verif.Yield()
+		}
 		if step < k-verif.Param("R", 1) {
 			continue
 		}
